@@ -36,6 +36,9 @@ struct Run<'a, 'b> {
     rolled_to: BTreeSet<usize>,
     /// upper bound (wall-clock second) of the creation time of the newest checkpoint
     last_cp_second: Option<u64>,
+    /// the harness clock went backwards between two CHECKPOINTs of a spaced program: creation order
+    /// and creation seconds may disagree, the order of the list is not judged any more
+    clock_anomaly: bool,
     /// a known finding left graph/vector state or the checkpoint list in a state the harness cannot follow
     stop: bool,
 }
@@ -288,6 +291,11 @@ impl Run<'_, '_> {
         let before = self.battery();
         let name = format!("cp{}", self.cps.len() + 1);
         let text = format!("CHECKPOINT '{name}'");
+        let started = now_s();
+        if self.case.spaced && self.last_cp_second.is_some_and(|t| started <= t) {
+            self.clock_anomaly = true;
+            self.ctx.label("clock-went-backwards:retention-order-not-judged");
+        }
         let id = match self.w.exec(&text) {
             Ok(QueryResult::Value(v)) if v.starts_with("Checkpoint created: ") => v["Checkpoint created: ".len()..].trim().to_string(),
             other => {
@@ -344,7 +352,7 @@ impl Run<'_, '_> {
             self.stop = true;
             return Ok(());
         }
-        let same = if self.case.spaced {
+        let same = if self.case.spaced && !self.clock_anomaly {
             names == want
         } else {
             let (mut a, mut b) = (names.clone(), want.clone());
@@ -355,6 +363,13 @@ impl Run<'_, '_> {
         if same {
             return Ok(());
         }
+        if self.clock_anomaly {
+            // creation seconds no longer follow creation order: which checkpoints are the newest is
+            // not decided for the product; follow its list
+            actual_idx.sort_unstable();
+            self.retained = actual_idx;
+            return Ok(());
+        }
         let missing: Vec<&String> = want.iter().filter(|n| !names.contains(n)).collect();
         let extra: Vec<&String> = names.iter().filter(|n| !want.contains(n)).collect();
         let max = self.case.max_cp as usize;
@@ -363,7 +378,7 @@ impl Run<'_, '_> {
             // one recorded root cause explains exactly one list: the list of the moment the target's
             // store image was taken (the checkpoint records live in the store that is rolled back)
             let image: Vec<String> = self.cps[target].listed_before.iter().rev().map(|i| self.cps[*i].name.clone()).collect();
-            let explained = if self.case.spaced {
+            let explained = if self.case.spaced && !self.clock_anomaly {
                 names == image
             } else {
                 let (mut a, mut b) = (names.clone(), image.clone());
@@ -633,6 +648,7 @@ pub fn run(case: &Case, ctx: &mut CaseCtx) -> Result<(), Fail> {
         rollbacks: 0,
         rolled_to: BTreeSet::new(),
         last_cp_second: None,
+        clock_anomaly: false,
         stop: false,
     };
     if case.tables_first && !case.gv_only {
